@@ -16,20 +16,30 @@ import (
 	"pgregory.net/rapid"
 )
 
-// BGVCase is one generated scenario for the integer scheme.
+// BGVRound is one evaluation: an input ciphertext, 1-3 transformations, a mode and a receiver kind. Keys are generated per
+// round for exactly the elements advertised for the round; all rounds of a case share the secret key and the evaluator
+// buffers (evaluator re-used with transformations of different shapes), and a round may use the outputs of the previous
+// round as receivers.
+type BGVRound struct {
+	LevelP   int    `json:"levelP"` // -1: no auxiliary prime in use
+	CtLevel  int    `json:"ctLevel"`
+	CtScale  uint64 `json:"ctScale"`
+	Signed   bool   `json:"signed,omitempty"` // diagonals handed over as []int64 (centred) instead of []uint64
+	LTs      []LT   `json:"lts"`
+	Mode     string `json:"mode"`
+	OutExtra int    `json:"outExtra,omitempty"` // receiver allocated this many levels above (recv "low": below) the expected output level
+	Recv     string `json:"recv,omitempty"`     // receiver kind, see recvKinds
+	GalSrc   string `json:"galSrc"`             // "lt": LinearTransformation.GaloisElements, "func": lintrans.GaloisElements
+	Seed     uint64 `json:"seed"`
+}
+
+// BGVCase is one generated scenario for the integer scheme: parameters, a first round (inline fields) and further rounds.
 type BGVCase struct {
-	P        h.BGVSpec `json:"params"`
-	LevelP   int       `json:"levelP"`
-	CtLevel  int       `json:"ctLevel"`
-	CtScale  uint64    `json:"ctScale"`
-	Signed   bool      `json:"signed,omitempty"` // diagonals handed over as []int64 (centred) instead of []uint64
-	BFV      bool      `json:"bfv,omitempty"`    // scale-invariant (BFV-style) evaluator: Rescale is documented as a nop
-	LTs      []LT      `json:"lts"`
-	Mode     string    `json:"mode"`
-	OutExtra int       `json:"outExtra,omitempty"` // receiver allocated this many levels above the expected output level
-	Warm     bool      `json:"warm,omitempty"`     // the evaluator (shared buffers) has been used before
-	GalSrc   string    `json:"galSrc"`             // "lt": LinearTransformation.GaloisElements, "func": lintrans.GaloisElements
-	Seed     uint64    `json:"seed"`
+	P h.BGVSpec `json:"params"`
+	BGVRound
+	BFV  bool       `json:"bfv,omitempty"`  // scale-invariant (BFV-style) evaluator: Rescale is documented as a nop
+	Warm bool       `json:"warm,omitempty"` // the evaluator (shared buffers) has been used before
+	More []BGVRound `json:"more,omitempty"`
 }
 
 func (c BGVCase) RandSeed() uint64 { return c.Seed }
@@ -62,7 +72,7 @@ func genBGV(t *rapid.T) BGVCase {
 		logN = maxInt(7, maxLogN)
 	}
 	nQ := rapid.IntRange(1, 4).Draw(t, "nQ")
-	nP := rapid.IntRange(1, 2).Draw(t, "nP")
+	nP := rapid.IntRange(1, 3).Draw(t, "nP")
 	m := uint64(2) << logN
 	used := map[uint64]bool{}
 	qs := h.GenSizes(t, nQ, 36, 60, "q")
@@ -90,23 +100,44 @@ func genBGV(t *rapid.T) BGVCase {
 	c.P = h.BGVSpec{RLWESpec: h.RLWESpec{LogN: logN, Q: Q, P: P, Xs: h.DefaultXs, Xe: h.DefaultXe, NTT: true}, T: T}
 	n := 1 << (ringTLogN(T, logN) - 1) // columns per row
 
-	c.LevelP = biasedLevel(t, 0, nP-1, "levelP")
-	if c.LevelP+1 > nQ && rapid.IntRange(0, 15).Draw(t, "pbufEdge") != 0 {
-		c.LevelP = nQ - 1
-	}
-	c.CtLevel = biasedLevel(t, 0, nQ-1, "ctLevel")
-	c.CtScale = 1
-	if rapid.Bool().Draw(t, "ctScaled") {
-		c.CtScale = rapid.Uint64Range(1, T-1).Draw(t, "ctScale")
-	}
-	c.Signed = rapid.IntRange(0, 3).Draw(t, "signed") == 0
 	c.BFV = rapid.IntRange(0, 3).Draw(t, "bfv") == 0
-	c.Mode = modes[rapid.IntRange(0, len(modes)-1).Draw(t, "mode")]
+	c.Warm = rapid.IntRange(0, 3).Draw(t, "warm") != 0
+	// one case in twelve has no auxiliary prime in use: parameters without P, or LevelP = -1 for keys and transformations
+	noP := 0
+	if !stress && rapid.IntRange(0, 11).Draw(t, "noP") == 0 {
+		noP = 1 + rapid.IntRange(0, 1).Draw(t, "noPkind")
+		if noP == 1 {
+			c.P.P = nil
+			nP = 0
+		}
+	}
+	c.BGVRound = genBGVRound(t, "", nQ, nP, noP != 0, T, n, stress, c.BFV)
+	if !stress {
+		for i, k := 0, rapid.IntRange(0, 5).Draw(t, "moreRounds"); i < k-3; i++ {
+			c.More = append(c.More, genBGVRound(t, fmt.Sprintf("r%d_", i+1), nQ, nP, noP != 0, T, n, false, c.BFV))
+		}
+	}
+	return c
+}
+
+func genBGVRound(t *rapid.T, pre string, nQ, nP int, noP bool, T uint64, n int, stress, bfv bool) BGVRound {
+	var c BGVRound
+	c.LevelP = biasedLevel(t, 0, nP-1, pre+"levelP")
+	if noP || nP == 0 {
+		c.LevelP = -1
+	}
+	c.CtLevel = biasedLevel(t, 0, nQ-1, pre+"ctLevel")
+	c.CtScale = 1
+	if rapid.Bool().Draw(t, pre+"ctScaled") {
+		c.CtScale = rapid.Uint64Range(1, T-1).Draw(t, pre+"ctScale")
+	}
+	c.Signed = rapid.IntRange(0, 3).Draw(t, pre+"signed") == 0
+	c.Mode = modes[rapid.IntRange(0, len(modes)-1).Draw(t, pre+"mode")]
 	nLT := 1
 	if isMany(c.Mode) || isSeq(c.Mode) {
-		nLT = rapid.IntRange(1, 3).Draw(t, "nLT")
+		nLT = rapid.IntRange(1, 3).Draw(t, pre+"nLT")
 	}
-	if isSeq(c.Mode) {
+	if isSeq(c.Mode) && !bfv {
 		if c.CtLevel == 0 {
 			c.Mode = "evalNew"
 			nLT = 1
@@ -115,7 +146,7 @@ func genBGV(t *rapid.T) BGVCase {
 		}
 	}
 	for i := 0; i < nLT; i++ {
-		lbl := fmt.Sprintf("lt%d", i)
+		lbl := fmt.Sprintf("%slt%d", pre, i)
 		var l LT
 		if stress {
 			l.Diags, l.Ent = denseSet(t, n, lbl), "rand"
@@ -132,7 +163,7 @@ func genBGV(t *rapid.T) BGVCase {
 			l.Ratio = rapid.IntRange(1, 4).Draw(t, lbl+"_stressRatio")
 		}
 		lo := 0
-		if isSeq(c.Mode) {
+		if isSeq(c.Mode) && !bfv {
 			lo = nLT - i
 		}
 		l.LevQ = biasedLevel(t, lo, nQ-1, lbl+"_levelQ")
@@ -142,10 +173,10 @@ func genBGV(t *rapid.T) BGVCase {
 		}
 		c.LTs = append(c.LTs, l)
 	}
-	c.OutExtra = rapid.IntRange(0, 2).Draw(t, "outExtra")
-	c.Warm = rapid.IntRange(0, 3).Draw(t, "warm") != 0
-	c.GalSrc = []string{"lt", "func"}[rapid.IntRange(0, 1).Draw(t, "galSrc")]
-	c.Seed = rapid.Uint64().Draw(t, "seed")
+	c.OutExtra = rapid.IntRange(0, 2).Draw(t, pre+"outExtra")
+	c.Recv = recvKinds[rapid.IntRange(0, len(recvKinds)-1).Draw(t, pre+"recv")]
+	c.GalSrc = []string{"lt", "func"}[rapid.IntRange(0, 1).Draw(t, pre+"galSrc")]
+	c.Seed = rapid.Uint64().Draw(t, pre+"seed")
 	return c
 }
 
@@ -179,11 +210,22 @@ func genPerm(t *rapid.T, n, rows int, label string) ([]PM, []int) {
 }
 
 func (c BGVCase) valid(n int) string {
-	nQ, nP := len(c.P.Q), len(c.P.P)
-	if nQ == 0 || nP == 0 || c.LevelP < 0 || c.LevelP >= nP || c.CtLevel < 0 || c.CtLevel >= nQ || len(c.LTs) == 0 {
+	if len(c.P.Q) == 0 {
 		return "levels"
 	}
-	if c.CtScale == 0 || c.CtScale >= c.P.T {
+	for _, r := range append([]BGVRound{c.BGVRound}, c.More...) {
+		if why := r.valid(len(c.P.Q), len(c.P.P), c.P.T, n); why != "" {
+			return why
+		}
+	}
+	return ""
+}
+
+func (c BGVRound) valid(nQ, nP int, T uint64, n int) string {
+	if c.LevelP < -1 || c.LevelP >= nP || c.CtLevel < 0 || c.CtLevel >= nQ || len(c.LTs) == 0 {
+		return "levels"
+	}
+	if c.CtScale == 0 || c.CtScale >= T {
 		return "ctScale"
 	}
 	ok := false
@@ -193,11 +235,18 @@ func (c BGVCase) valid(n int) string {
 	if !ok {
 		return "mode"
 	}
+	ok = false
+	for _, m := range recvKinds {
+		ok = ok || m == c.Recv
+	}
+	if !ok {
+		return "recv"
+	}
 	if !isMany(c.Mode) && !isSeq(c.Mode) && len(c.LTs) != 1 {
 		return "nLT"
 	}
 	for _, l := range c.LTs {
-		if l.LevQ < 0 || l.LevQ >= nQ || l.Scale == 0 || l.Scale >= c.P.T {
+		if l.LevQ < 0 || l.LevQ >= nQ || l.Scale == 0 || l.Scale >= T {
 			return "lt"
 		}
 		if l.Perm != nil {
@@ -280,6 +329,18 @@ func permScaling(pm PM, T uint64) uint64 {
 	return 1 + h.NewSplitMix(pm.Seed).Uint64()%(T-1)
 }
 
+// bgvEnv is what the rounds of a case share: keys, encoder and the evaluator whose buffers every round re-uses.
+type bgvEnv struct {
+	params bgv.Parameters
+	kgen   *rlwe.KeyGenerator
+	sk     *rlwe.SecretKey
+	enc    *rlwe.Encryptor
+	dec    *rlwe.Decryptor
+	ecd    *bgv.Encoder
+	base   *bgv.Evaluator
+	prev   []*rlwe.Ciphertext // outputs of the previous round
+}
+
 func runBGV(c BGVCase, rec *h.Rec) error {
 	T := c.P.T
 	n := 1 << (ringTLogN(T, c.P.LogN) - 1)
@@ -292,18 +353,78 @@ func runBGV(c BGVCase, rec *h.Rec) error {
 		rec.Class("params-rejected")
 		return nil
 	}
-	N := params.N()
 	if params.MaxSlots() != 2*n {
-		return h.Failf("C12:bgv:harness:slots-model", "MaxSlots=%d, harness expects %d", params.MaxSlots(), 2*n)
+		return h.Failf("C12:harness:bgv:slots-model", "MaxSlots=%d, harness expects %d", params.MaxSlots(), 2*n)
 	}
+	env := &bgvEnv{params: params}
+	env.kgen = rlwe.NewKeyGenerator(params)
+	env.sk = env.kgen.GenSecretKeyNew()
+	env.enc = rlwe.NewEncryptor(params, env.sk)
+	env.dec = rlwe.NewDecryptor(params, env.sk)
+	env.ecd = bgv.NewEncoder(params)
+	env.base = bgv.NewEvaluator(params, nil, c.BFV)
+	if c.Warm && len(c.P.P) > 0 {
+		// the evaluator has a history: its shared buffers are not zero (as in any real program)
+		wk := rlwe.NewMemEvaluationKeySet(nil, env.kgen.GenGaloisKeyNew(params.GaloisElement(1), env.sk))
+		wpt := bgv.NewPlaintext(params, params.MaxLevel())
+		wct, _ := env.enc.EncryptNew(wpt)
+		if _, err := env.base.WithKey(wk).RotateColumnsNew(wct, 1); err != nil {
+			return h.Failf("C12:harness:bgv:warmup", "%v", err)
+		}
+	}
+	rounds := append([]BGVRound{c.BGVRound}, c.More...)
+	rec.Classf("rounds=%d", len(rounds))
+	desc, nontrivial := "", len(rounds) > 1
+	for ri, r := range rounds {
+		cc := c
+		cc.BGVRound = r
+		d, nt, stop, err := runBGVRound(cc, ri, env, rec)
+		if err != nil || stop {
+			return err
+		}
+		if ri == 0 {
+			desc = d
+		}
+		nontrivial = nontrivial || nt
+	}
+	if nontrivial && desc != "" {
+		rec.NonTrivial(fmt.Sprintf("%s/rounds=%d", desc, len(rounds)))
+	}
+	return nil
+}
+
+// runBGVRound evaluates and checks one round. It returns the descriptor of the round ("" if a comparison was not
+// discriminating), whether the round is non-trivial by the rule, and stop=true when the case ends early without a failure
+// (listed finding, accepted error).
+func runBGVRound(c BGVCase, ri int, env *bgvEnv, rec *h.Rec) (desc string, nontrivial, stop bool, err error) {
+	T := c.P.T
+	n := 1 << (ringTLogN(T, c.P.LogN) - 1)
+	params := env.params
+	kgen, sk, enc, dec, ecd := env.kgen, env.sk, env.enc, env.dec, env.ecd
+	N := params.N()
 	maxLevel := params.MaxLevel()
 	tag := "C12:bgv:" + c.Mode
-
-	kgen := rlwe.NewKeyGenerator(params)
-	sk := kgen.GenSecretKeyNew()
-	enc := rlwe.NewEncryptor(params, sk)
-	dec := rlwe.NewDecryptor(params, sk)
-	ecd := bgv.NewEncoder(params)
+	noP := c.LevelP < 0
+	empty := hasEmptySet(c.LTs)
+	// a panic is a listed/specific finding only in these classes; anything else goes to the harness as panic@site
+	panicKey := func() string {
+		switch {
+		case noP:
+			return keyNoP
+		case empty:
+			return keyEmpty
+		case len(c.P.Q) < c.LevelP+1:
+			return keyPBuffer
+		}
+		return ""
+	}
+	finding := func(key, msg string) (string, bool, bool, error) {
+		if rec.Known(key, msg) {
+			rec.Class("known=" + key)
+			return "", false, true, nil
+		}
+		return "", false, true, h.Failf(key, "%s", msg)
+	}
 
 	// input vector
 	rng := h.NewSplitMix(c.Seed)
